@@ -167,14 +167,28 @@ Theorem C01_ray_refuted :
   = Ok ([VRay (mkV3 0 0 0) (mkV3 f32_4 f32_5 f32_4)], []).
 Proof. exact ray_refuted. Qed.
 
+(* the Color3uint8 arm before repair 459caf55, and after *)
 Theorem C01_color3uint8_unknown_property_refuted :
-  enc_then_dec WColor3uint8 (to_default_rbx_type WColor3uint8) ectx0 ctx0 [VColor3uint8 1 2 3] = Err E_TYPE_MISMATCH.
+  match enc_col WColor3uint8 ectx0 [VColor3uint8 1 2 3] with
+  | Ok b => dec_color3uint8_pinned (to_default_rbx_type WColor3uint8) 1 b
+  | _ => Ok ([], [])
+  end = Err E_TYPE_MISMATCH.
 Proof. exact color3uint8_unknown_property_refuted. Qed.
 
+Theorem C01_color3uint8_unknown_property_repaired :
+  enc_then_dec WColor3uint8 (to_default_rbx_type WColor3uint8) ectx0 ctx0 [VColor3uint8 1 2 3]
+  = Ok ([VColor3uint8 1 2 3], []).
+Proof. exact color3uint8_unknown_property_repaired. Qed.
+
+(* the Content arm before repair 55a7c594 (object referents popped from the back), and after *)
 Theorem C01_content_object_order_refuted :
-  enc_then_dec WContent VT_Content ectx_id dctx_id [VContent (CObject 7); VContent (CObject 9)]
-  = Ok ([VContent (CObject 9); VContent (CObject 7)], []).
+  content_values_pinned dctx_id [2%Z; 2%Z] [] [7%Z; 9%Z] = Ok [VContent (CObject 9); VContent (CObject 7)].
 Proof. exact content_object_order_refuted. Qed.
+
+Theorem C01_content_object_order_repaired :
+  enc_then_dec WContent VT_Content ectx_id dctx_id [VContent (CObject 7); VContent (CUri [97]); VContent (CObject 9); VContent CNone]
+  = Ok ([VContent (CObject 7); VContent (CUri [97]); VContent (CObject 9); VContent CNone], []).
+Proof. exact content_object_order_repaired. Qed.
 
 Theorem C01_font_cached_empty_refuted :
   enc_then_dec WFont VT_Font ectx0 ctx0 [VFont (mkFont [97] 400 0 (Some []))]
